@@ -89,21 +89,26 @@ class Creators:
         gfa_line = gfapy.Line(gfa_line, dialect=self._dialect)
       gfa_line.connect(self)
     elif rt == "H":
-      self._n_input_header_lines += 1
       if isinstance(gfa_line, str):
         gfa_line = gfapy.Line(gfa_line, vlevel=self._vlevel,
             dialect=self._dialect)
-      self.header._merge(gfa_line)
+      version = None
       if gfa_line.VN:
         if gfa_line.VN == "1.0":
-          self._version = "gfa1"
+          version = "gfa1"
         elif gfa_line.VN == "2.0":
-          self._version = "gfa2"
+          version = "gfa2"
         else:
-          self._version = gfa_line.VN
+          version = gfa_line.VN
+        # validate before storing anything in the Gfa instance
+        if self._vlevel > 0 and version not in gfapy.VERSIONS:
+          raise gfapy.VersionError(
+            "GFA specification version {} not supported".format(version))
+      self.header._merge(gfa_line)
+      self._n_input_header_lines += 1
+      if version is not None:
+        self._version = version
         self._version_explanation = "specified in header VN tag"
-        if self._vlevel > 0:
-          self._validate_version()
         self.process_line_queue()
     elif rt == "S":
       if isinstance(gfa_line, str):
